@@ -23,6 +23,14 @@ inject cases: tested role (client / server) x kex (curve25519, nistp256, group14
     the KEXINIT it really sent (an honest peer with another habit). Whether strict mode applies is still read off
     the wire by membership, so the oracle above holds unchanged for every layout; the honest sessions below are run
     with every layout too (laid out by the client, the server or both) and are the control that such a peer works.
+    OTHER FIELDS OF THE PEER'S KEXINIT ("follows"): the boolean first_kex_packet_follows (RFC 4253 7) is a field every
+    peer may set. The NON-tested peer sets it to TRUE in its first KEXINIT (and hashes what it sent) with a guess
+    that is right (its first kex method and first host key algorithm are the negotiated ones), wrong in the kex method
+    (an OpenSSH method name the tested side does not know heads its list) or wrong in the host key algorithm (likewise).
+    RFC 4253 lets a receiver drop "the next packet" after a wrong guess - that packet is a key-exchange-method message
+    (numbers 30..49) by definition, so the only injected messages without obligation here are those numbers delivered
+    right after such a KEXINIT (counted); IGNORE, DEBUG, UNIMPLEMENTED, unknown and every other message still has to end
+    the connection at every position, whatever the flag says.
 terrapin cases (client tested, both strict): IGNORE injected before the server's NEWKEYS and / or
     the server's first encrypted packet deleted. Oracle: inject -> handshake fails; delete only ->
     no authenticated session can be obtained afterwards (the shifted stream must not verify).
@@ -52,6 +60,10 @@ RULE = (
     "followed-by-algorithm-names[+first]): the non-tested peer moves its strict marker to the front / behind its first method / in "
     "front of an unknown method name / between unknown names, x role x position x IGNORE + one rotating other message (thorough: all 6, "
     "kex rotating), drawn in the hypothesis parts, honest sessions with every layout by client / server / both; "
+    "first_kex_packet_follows = TRUE in the non-tested peer's KEXINIT (classes kexinit-follows:<right-guess|wrong-kex-guess|"
+    "wrong-hostkey-guess>, kexinit-follows:injected-right-after-flagged-kexinit) x role x position x IGNORE + one rotating other message "
+    "(all 6 right after the flagged KEXINIT; thorough: all 6 everywhere x kex rotating x every layout once), drawn in the hypothesis part; kex-method numbers 30..49 right after a flagged KEXINIT "
+    "carry no obligation (the guessed packet of RFC 4253 7); "
     "an injected message of the type the receiver is waiting for carries no obligation; terrapin: {inject+delete, delete} x "
     "cipher/mac (4); honest: strict flags(4) x cipher/mac(5) x rekeys 0..2 with initiators drawn by hypothesis. non-trivial = "
     "injection at a position > 0, a deletion, or an honest session with >= 1 re-exchange or a re-laid KEXINIT; distinct by full case"
@@ -149,20 +161,49 @@ def relayout(names, layout):
     raise core.HarnessError("unknown KEXINIT layout %r" % (layout,))
 
 
+FOLLOWS = ["right-guess", "wrong-kex-guess", "wrong-hostkey-guess"]
+UNKNOWN_HOSTKEY_NAME = "webauthn-sk-ecdsa-sha2-nistp256@openssh.com"
+
+
+def with_guess(d, follows, kex, hostkey="ssh-ed25519"):
+    """KEXINIT fields `d` with first_kex_packet_follows = TRUE and the name lists arranged so that the announced guess
+    (first kex method, first host key algorithm: RFC 4253 7) is right / wrong for the negotiation that will pick
+    `kex` and `hostkey`. Same set of names the peer really supports, + one name the other side cannot know for the
+    wrong guesses (so the negotiation result is unchanged)."""
+    d = dict(d, follows=True)
+    if follows == "right-guess":
+        d["kex"] = [kex] + [n for n in d["kex"] if n != kex]
+        d["hostkey"] = [hostkey] + [n for n in d["hostkey"] if n != hostkey]
+    elif follows == "wrong-kex-guess":
+        d["kex"] = UNKNOWN_KEX_NAMES[1:] + [n for n in d["kex"] if n not in UNKNOWN_KEX_NAMES[1:]]
+    elif follows == "wrong-hostkey-guess":
+        d["hostkey"] = [UNKNOWN_HOSTKEY_NAME] + list(d["hostkey"])
+    else:
+        raise core.HarnessError("unknown first_kex_packet_follows variant %r" % (follows,))
+    return d
+
+
 class LayoutTransport(peers.VTransport):
-    """NON-tested peer that lays out the kex name-list of its own KEXINITs as `v_layout` says. It hashes what it
-    sent (its I_C / I_S is the payload that went on the wire), so for the tested side it is an honest peer with
-    another habit of ordering its list."""
+    """NON-tested peer that lays out the kex name-list of its own KEXINITs as `v_layout` says and / or sets
+    first_kex_packet_follows in its FIRST KEXINIT as `v_follows` says (v_guess = (kex, host key algorithm) that the
+    negotiation will pick). It hashes what it sent (its I_C / I_S is the payload that went on the wire), so for the
+    tested side it is an honest peer with another habit of ordering its list."""
 
     v_layout = None
+    v_follows = None
+    v_guess = None
+    v_kexinits = 0
 
     def _send_message(self, data):
         raw = data.asbytes()
-        if self.v_layout and raw[:1] == b"\x14":
+        if (self.v_layout or self.v_follows) and raw[:1] == b"\x14":
             from paramiko.message import Message
 
             d = mitm.parse_kexinit(raw)
             d["kex"] = relayout(d["kex"], self.v_layout)
+            if self.v_follows and not self.v_kexinits:
+                d = with_guess(d, self.v_follows, *self.v_guess)
+            self.v_kexinits += 1
             new = mitm.build_kexinit(d)
             if new != raw:
                 self.local_kex_init = self._latest_kex_init = new
@@ -170,16 +211,16 @@ class LayoutTransport(peers.VTransport):
         return peers.VTransport._send_message(self, data)
 
 
-def _pair(kex, strict_c, strict_s, suite=None, layout=None, layout_side=None):
+def _pair(kex, strict_c, strict_s, suite=None, layout=None, layout_side=None, follows=None):
     """layout / layout_side: the peer(s) named by layout_side ("c", "s" or "cs") lay out their KEXINIT kex list
-    as `layout` says."""
+    as `layout` says and set first_kex_packet_follows as `follows` says."""
     import paramiko
 
     dis = {"kex": mitm.only(mitm.ALL_KEX, kex), "keys": mitm.only(ALLKEYS, "ssh-ed25519")}
     if suite is not None:
         dis["ciphers"] = mitm.only(paramiko.Transport._preferred_ciphers, suite[0])
         dis["macs"] = mitm.only(paramiko.Transport._preferred_macs, suite[1])
-    side = (layout_side or "") if layout else ""
+    side = (layout_side or "") if (layout or follows) else ""
     link, tc, ts = peers.make_pair(
         client_cls=LayoutTransport if "c" in side else peers.VTransport,
         server_cls=LayoutTransport if "s" in side else peers.VTransport,
@@ -190,6 +231,8 @@ def _pair(kex, strict_c, strict_s, suite=None, layout=None, layout_side=None):
     for t, x in ((tc, "c"), (ts, "s")):
         if x in side:
             t.v_layout = layout
+            t.v_follows = follows
+            t.v_guess = (kex, "ssh-ed25519")
     return link, tc, ts
 
 
@@ -247,7 +290,7 @@ def run_inject(ctx, case):
 
     with _pack(kex):
         # (the NON-tested peer = the sender of the packets the tested side receives lays out its KEXINIT)
-        link, tc, ts = _pair(kex, case["strict_c"], case["strict_s"], layout=case.get("layout"), layout_side="s" if role == "client" else "c")
+        link, tc, ts = _pair(kex, case["strict_c"], case["strict_s"], layout=case.get("layout"), layout_side="s" if role == "client" else "c", follows=case.get("follows"))
         m = mitm.PlainMitm(link)
         m.on_packet = lambda d, i, p: cb(m, d, i, p)
         try:
@@ -272,6 +315,24 @@ def run_inject(ctx, case):
     cl.append("kexinit-layout:" + (case.get("layout") or "default"))
     cl += _marker_classes(m)
     awaited = False
+    guessed = False
+    if case.get("follows"):
+        # (read off the wire like the strict markers: what the tested side was really shown)
+        ki = m.kexinit(target)
+        if not (ki and ki.get("follows")):
+            raise core.HarnessError("first_kex_packet_follows not set on the wire: %r" % (case,))
+        right = ki["kex"][:1] == [kex] and ki["hostkey"][:1] == ["ssh-ed25519"]
+        if right != (case["follows"] == "right-guess"):
+            raise core.HarnessError("the peer's guess is %s on the wire, the case wants %s: %r" % ("right" if right else "wrong", case["follows"], ki))
+        cl.append("kexinit-follows:" + case["follows"])
+        if pos == 1:
+            cl.append("kexinit-follows:injected-right-after-flagged-kexinit")
+            cl.append("kexinit-follows:%s:injected-right-after-flagged-kexinit" % ("right-guess" if right else "wrong-guess"))
+            # RFC 4253 7: the packet after a flagged KEXINIT is the peer's guessed first key-exchange-method message
+            # (numbers 30..49); a receiver may have to drop it silently. Everything else is not a key exchange message.
+            guessed = what.startswith("type:") and 30 <= int(what[5:]) <= 49
+    else:
+        cl.append("kexinit-follows:not-set")
     if what.startswith("type:"):
         t = int(what[5:])
         cl.append("inject-type:" + ("1-19" if t < 20 else "20-29" if t < 30 else "30-49" if t < 50 else "50-79" if t < 80 else "80-127" if t < 128 else "128-255"))
@@ -288,15 +349,18 @@ def run_inject(ctx, case):
     if awaited:
         ctx.count("injected-type-is-the-awaited-one:" + ("session-established" if done else "session-failed"))
         return True
+    if guessed:
+        ctx.count("injected-kex-method-message-in-place-of-the-guessed-packet:" + ("session-established" if done else "session-failed"))
+        return True
     if err is None and not done:
         ctx.inconc("inject:tested-side-neither-failed-nor-established-in-time")
         return True
     if done:
         ctx.violation(
             "strict-kex-terminates-on-unexpected-message",
-            "%s:%s:%s%s" % (role, what, "before-kexinit" if pos == 0 else "after-kexinit", ":peer-kexinit-layout" if case.get("layout") else ""),
+            "%s:%s:%s%s%s" % (role, what, "before-kexinit" if pos == 0 else "after-kexinit", ":peer-kexinit-layout" if case.get("layout") else "", ":peer-kexinit-first-kex-packet-follows" if case.get("follows") else ""),
             case,
-            "strict mode agreed on the wire (peer's kex list laid out: %s); %s received %s before the peer's packet #%d (type %d); error=%r initial_kex_done=%s active=%s" % (case.get("layout") or "default", role, what, pos, applied[0], err, done, active),
+            "strict mode agreed on the wire (peer's kex list laid out: %s; first_kex_packet_follows: %s); %s received %s before the peer's packet #%d (type %d); error=%r initial_kex_done=%s active=%s" % (case.get("layout") or "default", case.get("follows") or "not set", role, what, pos, applied[0], err, done, active),
         )
         return False
     return True
@@ -488,6 +552,20 @@ def inject_domain(quick):
                 for what in (["ignore", INJECT[1 + j % (len(INJECT) - 1)]] if quick else INJECT):
                     out.append({"kind": "inject", "role": role, "kex": kex, "strict_c": True, "strict_s": True, "pos": pos, "inject": what, "layout": layout})
                 j += 1
+    # first_kex_packet_follows = TRUE in the peer's KEXINIT (strict mode agreed): role x guess x position x IGNORE and one
+    # rotating other message (thorough: all 6, kex rotating, + every layout once per guess)
+    for role in ("client", "server"):
+        for fi, follows in enumerate(FOLLOWS):
+            kex = KEXES[0] if quick else KEXES[(fi + (role == "server")) % len(KEXES)]
+            npk = 4 if mitm.kex_family(kex) == "gex" else 3
+            for pos in range(npk):
+                # (pos 1 = right after the flagged KEXINIT, where the guessed packet would stand: all 6 messages)
+                for what in (["ignore", INJECT[1 + j % (len(INJECT) - 1)]] if quick and pos != 1 else INJECT):
+                    out.append({"kind": "inject", "role": role, "kex": kex, "strict_c": True, "strict_s": True, "pos": pos, "inject": what, "follows": follows})
+                j += 1
+            if not quick:
+                for li, layout in enumerate(LAYOUTS):
+                    out.append({"kind": "inject", "role": role, "kex": KEXES[li % len(KEXES)], "strict_c": True, "strict_s": True, "pos": 1, "inject": INJECT[(li + fi) % len(INJECT)], "follows": follows, "layout": layout})
     return out
 
 
@@ -537,7 +615,7 @@ def run(ctx):
         },
         optional={"layout": st.sampled_from(LAYOUTS), "layout_side": st.sampled_from(["c", "s", "cs"])},
     )
-    ctx.explore(honest, lambda c: _dispatch(ctx, c), ctx.scale(26, 800), shrink=False)
+    ctx.explore(honest, lambda c: _dispatch(ctx, c), ctx.scale(22, 800), shrink=False)
     drawn = st.fixed_dictionaries(
         {
             "kind": st.just("inject"),
@@ -548,7 +626,7 @@ def run(ctx):
             "pos": st.integers(0, 3),
             "inject": st.one_of(st.integers(0, 49), st.integers(0, 255)).filter(lambda t: t != 20).map(lambda t: "type:%d" % t),
         },
-        optional={"body": st.binary(max_size=40), "layout": st.sampled_from(LAYOUTS)},
+        optional={"body": st.binary(max_size=40), "layout": st.sampled_from(LAYOUTS), "follows": st.sampled_from(FOLLOWS)},
     )
     ctx.explore(drawn, lambda c: _dispatch(ctx, c), ctx.scale(32, 1500), shrink=False, seed_offset=1)
 
